@@ -24,9 +24,9 @@ import (
 	rtypes "github.com/rigochain/rigo-go/types"
 	"github.com/rigochain/rigo-go/types/crypto"
 	abcitypes "github.com/tendermint/tendermint/abci/types"
-	tmcrypto "github.com/tendermint/tendermint/proto/tendermint/crypto"
 	tmjson "github.com/tendermint/tendermint/libs/json"
 	"github.com/tendermint/tendermint/libs/log"
+	tmcrypto "github.com/tendermint/tendermint/proto/tendermint/crypto"
 	tmproto "github.com/tendermint/tendermint/proto/tendermint/types"
 )
 
@@ -59,12 +59,12 @@ func Hex(b []byte) string {
 
 // Params is a governance parameter set in the order used by the line protocol.
 type Params struct {
-	MaxValidatorCnt, LazyRewardBlocks, LazyApplyingBlocks                int64
-	MinValidatorStake, MinDelegatorStake, RewardPerPower, GasPrice        string // decimal, "" = nil
-	MinTrxGas, MaxTrxGas, MaxBlockGas                                     uint64
-	MinVoting, MaxVoting                                                  int64
-	MinSelfStakeRatio, MaxUpdatableStakeRatio, MaxIndividualStakeRatio    int64
-	SlashRatio, SignedBlocksWindow, MinSignedBlocks, Version              int64
+	MaxValidatorCnt, LazyRewardBlocks, LazyApplyingBlocks              int64
+	MinValidatorStake, MinDelegatorStake, RewardPerPower, GasPrice     string // decimal, "" = nil
+	MinTrxGas, MaxTrxGas, MaxBlockGas                                  uint64
+	MinVoting, MaxVoting                                               int64
+	MinSelfStakeRatio, MaxUpdatableStakeRatio, MaxIndividualStakeRatio int64
+	SlashRatio, SignedBlocksWindow, MinSignedBlocks, Version           int64
 }
 
 func (p *Params) JSON() []byte {
